@@ -237,6 +237,18 @@ func c02GenCase(r *rand.Rand) (c *c01Case) {
 	if r.IntN(10) == 0 {
 		c.custom = append(c.custom, "@@||"+strings.ToLower(name)+"^")
 	}
+	if r.IntN(8) == 0 {
+		// a rewritten query: the answer of the canonical name is exempt from response filtering
+		c01GenExt(r, c)
+		if r.IntN(2) == 0 {
+			c.rewrites = append(c.rewrites, c01Rewrite{domain: strings.ToLower(name),
+				answer: vutil.Pick(r, []string{"canon.example.net", "tracker.net", "cdn.tracker.net", "1.2.3.4"})})
+		}
+		if c.qtype == dns.TypePTR {
+			c.qtype = dns.TypeA
+			c.qname = name + "."
+		}
+	}
 
 	return c
 }
@@ -263,6 +275,9 @@ func c02SeqGen(r *rand.Rand, emit vutil.Emit) {
 	blocks := vutil.N(1500)
 	for b := 0; b < blocks; b++ {
 		c := c02GenCase(r)
+		// the cache model covers plain forwarding only: no rewrites / hosts / safe browsing here
+		c.rewrites, c.hosts, c.sbOn, c.parOn, c.sbSet, c.parSet, c.sbHost, c.parHost, c.csb, c.cpar =
+			nil, nil, false, false, nil, nil, "", "", false, false
 		f := c.fields("C02.sreset")
 		line := append(append([]string{f[0]}, c02CacheForm(c)...), f[1:]...)
 		emit(append(line, c.oracleFields()...)...)
